@@ -56,14 +56,18 @@ func (p Params) Str(f string) string {
 
 // Material describes which key material to put into a key.
 type Material struct {
-	Class string // random | zero | leadzero | maxid | id0
-	Rng   *rand.Rand
+	Class   string // random | zero | leadzero | maxid | id0
+	Rng     *rand.Rand
+	FixedID *uint32 // when set: the id requirement of keys that have one
 }
 
 // ID returns the id requirement for a key whose parameters do (not) require one.
 func (m Material) ID(hasReq bool) uint32 {
 	if !hasReq {
 		return 0
+	}
+	if m.FixedID != nil {
+		return *m.FixedID
 	}
 	switch m.Class {
 	case "maxid":
